@@ -51,6 +51,9 @@ DENY_PREFIX = (
     "std::thread_local", "std::alloc::", "core::time::", "std::random",
 )
 PRINT = "std::io::stdio::_print"
+# source positions are not part of (attribute, item): tokens must not depend on them
+POSITION = re.compile(r"^proc_macro2?::(extra::)?Span::(start|end|source_text|source_file|byte_range|local_file|file|line|column|unwrap)$|"
+                      r"^proc_macro2?::(LineColumn|SourceFile)::|^<proc_macro2?::Span as core::fmt::Debug>::fmt")
 
 HASH_OK = {"new", "with_capacity", "insert", "contains", "get", "contains_key", "len", "is_empty", "default",
            "with_hasher", "reserve"}
@@ -78,6 +81,11 @@ def effect_findings(facts):
                 if any(n.startswith(p) or ("<" + p) in n for p in DENY_PREFIX):
                     out.append(("G-EFFECT", "%s calls %s" % (owner, strip_generics(n)),
                                 "call of `%s` (environment / time / global state / IO)" % n, where(b, c)))
+                    break
+            for n in names:
+                if POSITION.search(strip_generics(n)):
+                    out.append(("G-EFFECT", "%s position %s" % (owner, strip_generics(n)),
+                                "`%s` reads a source position (`%s`): the expansion would depend on where the invocation is written" % (owner, n), where(b, c)))
                     break
             # hash-order rule
             tys = " ".join(c.get("gargs_s", []) + c["arg_tys"])
